@@ -12,3 +12,40 @@ func (m *Machine) now() Value {
 	m.lastClock = s
 	return s
 }
+
+// time.Time is modelled as the real struct {wall, ext, loc} with wall = 0, loc = nil and ext = a
+// (symbolic) number of nanoseconds on the monotone clock.
+func timeVal(ns Value) Value { return Struct{int64(0), ns, Ptr(nil)} }
+func timeNs(v Value) Value  { return v.(Struct)[1] }
+
+func init() {
+	R("time.Now", func(m *Machine, a []Value) Value { return timeVal(m.now()) })
+	R("(time.Time).UTC", func(m *Machine, a []Value) Value { return a[0] })
+	R("(time.Time).Local", func(m *Machine, a []Value) Value { return a[0] })
+	R("(time.Time).Add", func(m *Machine, a []Value) Value {
+		x, d := timeNs(a[0]), a[1]
+		if xc, ok := x.(int64); ok {
+			if dc, ok := d.(int64); ok {
+				return timeVal(xc + dc)
+			}
+		}
+		return timeVal(mkArith("+", x, d))
+	})
+	R("(time.Time).Before", func(m *Machine, a []Value) Value { return mkCmp("<", timeNs(a[0]), timeNs(a[1])) })
+	R("(time.Time).After", func(m *Machine, a []Value) Value { return mkCmp(">", timeNs(a[0]), timeNs(a[1])) })
+	R("(time.Time).Equal", func(m *Machine, a []Value) Value { return mkCmp("=", timeNs(a[0]), timeNs(a[1])) })
+	R("(time.Time).IsZero", func(m *Machine, a []Value) Value { return mkCmp("=", timeNs(a[0]), int64(0)) })
+	R("(time.Time).Sub", func(m *Machine, a []Value) Value {
+		x, y := timeNs(a[0]), timeNs(a[1])
+		if xc, ok := x.(int64); ok {
+			if yc, ok := y.(int64); ok {
+				return xc - yc
+			}
+		}
+		return mkArith("-", x, y)
+	})
+	R("time.Since", func(m *Machine, a []Value) Value { return mkArith("-", m.now(), timeNs(a[0])) })
+	R("(time.Time).UnixNano", func(m *Machine, a []Value) Value { return timeNs(a[0]) })
+	R("(time.Time).Unix", func(m *Machine, a []Value) Value { return mkQuoRem(true, timeNs(a[0]), int64(1000000000)) })
+	R("time.Sleep", func(m *Machine, a []Value) Value { return nil })
+}
